@@ -54,8 +54,18 @@ class str_shim(metaclass=_StrMeta):
 
 
 def _round(x, n=None):
-    if sym.is_sym(x):
-        raise sym.Unsupported('round() of symbolic value')
+    if isinstance(x, SReal):
+        # exact decimal rounding (half up; Python rounds ties to even - ties have measure zero)
+        import z3
+        from fractions import Fraction
+        if n is None:
+            return SInt(z3.ToInt(x.e + z3.RealVal(Fraction(1, 2))))
+        n = builtins.int(n)
+        sc = z3.RealVal(Fraction(10) ** n)
+        return SReal(z3.ToReal(z3.ToInt(x.e * sc + z3.RealVal(Fraction(1, 2)))) / sc)
+    if isinstance(x, SInt):
+        if n is None or builtins.int(n) >= 0: return x
+        raise sym.Unsupported('round() of symbolic integer to negative digits')
     return builtins.round(x, n) if n is not None else builtins.round(x)
 
 
